@@ -498,6 +498,7 @@ func c07Adapter(c *Ctx) {
 
 func runC18(c *Ctx) {
 	c18DialRetry(c)
+	c18ConnectLoop(c)
 	p := c.P
 	c.floor("C18.R1", 2)
 	// ---- R1 ----
@@ -1216,14 +1217,18 @@ var _ = types.Typ
 // upgrade leaks the upstream leg (the listener keeps an accepted, idle stream).
 func c07DialReleased(c *Ctx) {
 	p := c.P
-	c.floor("C07.R6", 1)
-	for _, fn := range pkgFuncs(p, "server/proxy") {
-		if strings.HasSuffix(fn.Name(), "dialUpstream") {
+	c.floor("C07.R6", 2)
+	for _, fn := range pkgFuncs(p, "server/proxy", "agent/tcpproxy") {
+		if strings.HasSuffix(baseName(fn), "dialUpstream") {
 			continue // the transport owns what its dial hook returns
 		}
 		allInstrs(fn, func(i ssa.Instruction) {
 			cl, ok := i.(*ssa.Call)
-			if !ok || !cl.Call.IsInvoke() || cl.Call.Method.Name() != "Dial" {
+			if !ok {
+				return
+			}
+			if !isNetDial(cl, 0) || isDialHelper(fn, 0) {
+				// (inside a dial helper the connection is returned: its caller is responsible)
 				return
 			}
 			var conn, errv ssa.Value
@@ -1370,6 +1375,59 @@ func bindsParam(b ssa.Value, pv *ssa.Parameter) bool {
 // those two to the copy pair.
 func c07Spliced(c *Ctx) {
 	p := c.P
+	// the agent's TCP proxy: the accepted stream and the dialled service connection are spliced
+	if fn, fwd := p.Func("agent/tcpproxy", "Server.serveConn"), p.Func("agent/tcpproxy", "Server.forward"); fn != nil && fwd != nil {
+		c.analysed(fnName(fn))
+		var dial *ssa.Call
+		allInstrs(fn, func(i ssa.Instruction) {
+			if cl, ok := i.(*ssa.Call); ok && isNetDial(cl, 0) {
+				dial = cl
+			}
+		})
+		if dial == nil {
+			c.fail("C07.R7", fnName(fn)+"/legs", fn.Pos(), "the dial to the local service was not found")
+		} else {
+			ext := func(idx int) func(ssa.Value) bool {
+				return func(v ssa.Value) bool {
+					ex, ok := strip(v).(*ssa.Extract)
+					return ok && ex.Tuple == ssa.Value(dial) && ex.Index == idx
+				}
+			}
+			isSplice := func(i ssa.Instruction) bool {
+				cc := callCommon(i)
+				if cc == nil || cc.StaticCallee() != fwd {
+					return false
+				}
+				_, args := recvAndArgs(cc)
+				if len(args) != 2 {
+					return false
+				}
+				a0, a1 := strip(args[0]), strip(args[1])
+				isConnParam := func(v ssa.Value) bool {
+					if pv, ok := v.(*ssa.Parameter); ok {
+						return pv == fn.Params[1]
+					}
+					return loadsParamCell(v, fn.Params[1])
+				}
+				return (isConnParam(a0) && ext(0)(a1)) || (isConnParam(a1) && ext(0)(a0))
+			}
+			paths, complete := enumPaths(dial, isSplice, nil, func(pa *fpath) bool { return len(pa.seen) > 0 }, 200)
+			bad := ""
+			if !complete {
+				bad = "too many paths"
+			}
+			for _, pa := range paths {
+				if len(pa.seen) > 0 || pa.endWhy == "panic" {
+					continue
+				}
+				if anyFact(pa.facts, func(f Fact) bool { return cmpFact(f, token.NEQ, ext(1), isNilConst) }) {
+					continue
+				}
+				bad = "after a successful dial a path ends at " + p.pos(pa.end.Pos()) + " without starting the copy pair on (accepted stream, dialled service connection)"
+			}
+			c.check(bad == "", "C07.R7", fnName(fn)+"/legs-are-spliced", dial.Pos(), "forward(stream, dialled conn) on every path after a successful dial", bad+": the tunnel is accepted but carries no bytes")
+		}
+	}
 	fn := p.Func("server/proxy", "TCPProxy.ServeHTTP")
 	fwd := p.Func("server/proxy", "TCPProxy.forward")
 	if fn == nil || fwd == nil {
@@ -1559,4 +1617,184 @@ func c18DialRetry(c *Ctx) {
 		}
 	}
 	c.check(bad == "" && n > 0, "C18.R7", fnName(fn)+"/transport-failures-retryable", dial.Pos(), "every failure without an HTTP response is wrapped in RetryableError", bad)
+}
+
+// c18ConnectLoop (C18.R8): the client's connect loop gives up only for a local
+// reason. Every return of Upstream.connect after a failed dial carries one of:
+// the context is done (ctx.Err() != nil, or the ctx.Done() arm of the wait), or
+// errors.As(err, *RetryableError) is false; a failed dial that is retryable
+// leads back to the dial (no way out of the loop except a return); a session is
+// returned only when the dial succeeded.
+func c18ConnectLoop(c *Ctx) {
+	p := c.P
+	fn := p.Func("client", "Upstream.connect")
+	if fn == nil {
+		c.fail("C18.anchor", "client.Upstream.connect", token.NoPos, "not found")
+		return
+	}
+	c.analysed(fnName(fn))
+	var dial *ssa.Call
+	allInstrs(fn, func(i ssa.Instruction) {
+		if cl, ok := i.(*ssa.Call); ok && strings.HasSuffix(commonName(&cl.Call), "pkg/websocket.Dial") {
+			dial = cl
+		}
+	})
+	if dial == nil || loopHeader(dial.Block()) == nil {
+		c.fail("C18.R8", fnName(fn)+"/dial-in-loop", fn.Pos(), "the WebSocket dial is not inside a retry loop")
+		return
+	}
+	dialErr := func(v ssa.Value) bool {
+		ex, ok := strip(v).(*ssa.Extract)
+		return ok && ex.Tuple == ssa.Value(dial) && ex.Index == 1
+	}
+	isCtxErr := func(v ssa.Value) bool {
+		cl, ok := v.(*ssa.Call)
+		return ok && cl.Call.IsInvoke() && cl.Call.Method.Name() == "Err" && strings.Contains(cl.Call.Value.Type().String(), "context.Context")
+	}
+	paths, complete := enumPaths(dial, nil, nil, nil, 600)
+	bad := ""
+	if !complete {
+		bad = "too many paths"
+	}
+	nStop, nLoop, nOK := 0, 0, 0
+	for _, pa := range paths {
+		if infeasible(pa.facts) {
+			continue
+		}
+		failed := anyFact(pa.facts, func(f Fact) bool { return cmpFact(f, token.NEQ, dialErr, isNilConst) })
+		succeeded := anyFact(pa.facts, func(f Fact) bool { return cmpFact(f, token.EQL, dialErr, isNilConst) })
+		switch pa.endWhy {
+		case "return":
+			rv := returnValues(pa.end.(*ssa.Return))
+			if succeeded {
+				nOK++
+				continue
+			}
+			if !failed {
+				continue
+			}
+			if !isNilConst(rv[0]) {
+				bad = "a session is returned at " + p.pos(pa.end.Pos()) + " although the dial failed"
+				continue
+			}
+			nStop++
+			ctxDone := anyFact(pa.facts, func(f Fact) bool { return cmpFact(f, token.NEQ, isCtxErr, isNilConst) })
+			// the ctx.Done() arm of a select
+			selDone := anyFact(pa.facts, func(f Fact) bool {
+				op, x, y, ok := f.Cmp()
+				if !ok || op != token.EQL {
+					return false
+				}
+				ex, ok := x.(*ssa.Extract)
+				if !ok {
+					return false
+				}
+				sel, ok := ex.Tuple.(*ssa.Select)
+				if !ok || ex.Index != 0 {
+					return false
+				}
+				k, ok := constInt(y)
+				if !ok || int(k) >= len(sel.States) {
+					return false
+				}
+				dc, ok := sel.States[k].Chan.(*ssa.Call)
+				return ok && dc.Call.IsInvoke() && dc.Call.Method.Name() == "Done"
+			})
+			notRetryable := anyFact(pa.facts, func(f Fact) bool {
+				cl, ok := f.V.(*ssa.Call)
+				return ok && !f.T && commonName(&cl.Call) == "errors.As" && dialErr(cl.Call.Args[0])
+			})
+			if !ctxDone && !selDone && !notRetryable {
+				bad = "the connect loop gives up at " + p.pos(pa.end.Pos()) + " after a failed dial without a local reason (context done, or the error is not retryable); facts " + factStrings(pa.facts)
+			}
+		case "loop":
+			if failed {
+				nLoop++
+			}
+		case "panic":
+		default:
+			if failed {
+				bad = "a path after a failed dial leaves the retry loop at " + p.pos(pa.end.Pos())
+			}
+		}
+	}
+	// the loop has no exit other than returns
+	hdr := loopHeader(dial.Block())
+	body := naturalLoop(hdr)
+	for b := range body {
+		for _, s := range b.Succs {
+			if !body[s] && !onlyReturnsFrom(s) {
+				bad = "the retry loop can be left without returning (break) at " + p.pos(b.Instrs[len(b.Instrs)-1].Pos())
+			}
+		}
+	}
+	c.check(bad == "" && nLoop > 0 && nOK > 0 && nStop > 0, "C18.R8", fnName(fn)+"/retries-until-local-reason", dial.Pos(), fmt.Sprintf("%d give-up paths all justified, %d retry paths, %d success paths", nStop, nLoop, nOK), bad+": a listener whose node was lost stops reconnecting (or reports a session it does not have)")
+	// unlimited retries
+}
+
+// onlyReturnsFrom: every path from b ends in a return or panic (no fallthrough into code after a loop).
+func onlyReturnsFrom(b *ssa.BasicBlock) bool {
+	seen := map[*ssa.BasicBlock]bool{}
+	var rec func(x *ssa.BasicBlock) bool
+	rec = func(x *ssa.BasicBlock) bool {
+		if seen[x] {
+			return true
+		}
+		seen[x] = true
+		if len(x.Succs) == 0 {
+			return true
+		}
+		for _, s := range x.Succs {
+			if !rec(s) {
+				return false
+			}
+		}
+		return true
+	}
+	return rec(b)
+}
+
+// isNetDial: a call that opens a connection: an upstream's Dial, a net dial API,
+// or a module helper that returns such a connection (a function all of whose
+// non-nil first results are dial results).
+func isNetDial(cl *ssa.Call, depth int) bool {
+	if cl.Call.IsInvoke() && cl.Call.Method.Name() == "Dial" {
+		return true
+	}
+	switch commonName(&cl.Call) {
+	case "(*net.Dialer).Dial", "(*net.Dialer).DialContext", "net.Dial", "net.DialTimeout":
+		return true
+	}
+	if sc := cl.Call.StaticCallee(); sc != nil && inModule(sc) && sc.Blocks != nil && depth < 2 && isDialHelper(sc, depth) {
+		return true
+	}
+	return false
+}
+
+func isDialHelper(fn *ssa.Function, depth int) bool {
+	res := fn.Signature.Results()
+	if res.Len() != 2 || !strings.HasSuffix(res.At(0).Type().String(), "net.Conn") {
+		return false
+	}
+	n := 0
+	for _, r := range returnsOf(fn) {
+		rv := returnValues(r)
+		if isNilConst(rv[0]) {
+			continue
+		}
+		v := strip(rv[0])
+		if mi, ok := v.(*ssa.MakeInterface); ok {
+			v = strip(mi.X)
+		}
+		ex, ok := v.(*ssa.Extract)
+		if !ok || ex.Index != 0 {
+			return false
+		}
+		cl, ok := ex.Tuple.(*ssa.Call)
+		if !ok || !isNetDial(cl, depth+1) {
+			return false
+		}
+		n++
+	}
+	return n > 0
 }
